@@ -27,8 +27,10 @@
 
    Runners are environment processes with a scripted behaviour [beh]: [Free r] returns r whenever
    the environment says so, [OnCancel r] returns r only once its context is cancelled,
-   [CloseRunner] is the runner RunnerCloserManager.Run injects (returns nil when its context is
-   cancelled or closeCh is closed).  [RCtxCancel] = the caller cancels the context passed to Run;
+   [CtxErr] returns ctx.Err() once its context is cancelled, [CloseRunner] is the runner
+   RunnerCloserManager.Run injects (returns nil when its context is cancelled or closeCh is
+   closed).  [RCtxCancel e] = the context passed to Run ends and reports e from then on
+   ([canceled]: cancelled, with or without a cause; [deadline]: its deadline passed);
    [RCloseCh] = closeCh gets closed (by RunnerCloserManager.Close; environment from here).
 
    The send on the unbuffered channel and the deferred cancel() of the sending goroutine are one
@@ -42,6 +44,7 @@ Definition err := Z.
 Definition canceled : err := 0%Z.
 Definition err_started : err := (-1)%Z.   (* ErrManagerAlreadyStarted *)
 Definition err_closed : err := (-2)%Z.    (* ErrManagerAlreadyClosed *)
+Definition deadline : err := (-3)%Z.      (* context.DeadlineExceeded *)
 
 (* what the runner goroutine sends: nil and Canceled become nil *)
 Definition filt (r : option err) : option err :=
@@ -60,17 +63,20 @@ Fixpoint upd {A} (i : nat) (f : A -> A) (l : list A) : list A :=
   end.
 
 Inductive beh :=
-| Free (r : option err)
-| OnCancel (r : option err)
-| CloseRunner.
+| Free (r : option err)        (* returns r when the environment says so *)
+| OnCancel (r : option err)    (* returns r once its context is cancelled *)
+| CtxErr                       (* returns ctx.Err() once its context is cancelled *)
+| CloseRunner.                 (* the runner RunnerCloserManager.Run injects *)
 
-Definition beh_result (b : beh) : option err :=
-  match b with Free r | OnCancel r => r | CloseRunner => None end.
+(* what a runner with behaviour [b] returns when its context reports [cerr] *)
+Definition result_of (cerr : err) (b : beh) : option err :=
+  match b with Free r | OnCancel r => r | CtxErr => Some cerr | CloseRunner => None end.
 
 Inductive pst := Running | Sending | Done.
-Record rproc := mkp { p_beh : beh; p_st : pst }.
+(* [p_res]: what the runner returned (None while it runs, and for a nil result) *)
+Record rproc := mkp { p_beh : beh; p_st : pst; p_res : option err }.
 
-Definition sent (p : rproc) : list err := olist (filt (beh_result (p_beh p))).
+Definition sent (p : rproc) : list err := olist (filt (p_res p)).
 
 Inductive rpc :=
 | RIdle                                   (* Run not called *)
@@ -89,7 +95,10 @@ Record rstate := mkr {
   r_pc : rpc;                  (* the (only successful) Run call *)
   r_procs : list rproc;        (* one goroutine per element of the snapshot *)
   r_cancelled : bool;          (* the context handed to the runners is cancelled *)
-  r_parent : bool;             (* ghost: the caller's context was cancelled *)
+  r_cerr : err;                (* ... and this is what its Err() reports (set by the FIRST cancellation:
+                                  the caller's context ending with Canceled / DeadlineExceeded, or the
+                                  manager's own cancel() = Canceled) *)
+  r_parent : bool;             (* ghost: the caller's context has ended *)
   r_closech : bool;            (* closeCh is closed (RunnerCloserManager only) *)
   r_adds : list addst;         (* Add calls so far *)
   r_rejected : nat             (* ghost: Run calls that returned ErrManagerAlreadyStarted *)
@@ -103,7 +112,7 @@ Inductive revt :=
 | RRunnerReturn (i : nat)
 | RCollect (i : nat)
 | RRunReturn
-| RCtxCancel
+| RCtxCancel (e : err)      (* the caller's context ends; its Err() is e from then on *)
 | RCloseCh.
 
 (* the bound of the collection loop *)
@@ -116,42 +125,46 @@ Definition target (v : variant) (s : rstate) : nat :=
 Definition may_return (s : rstate) (b : beh) : bool :=
   match b with
   | Free _ => true
-  | OnCancel _ => r_cancelled s
+  | OnCancel _ | CtxErr => r_cancelled s
   | CloseRunner => r_cancelled s || r_closech s
   end.
 
-Definition set_st (st : pst) (p : rproc) : rproc := mkp (p_beh p) st.
+Definition set_st (st : pst) (p : rproc) : rproc := mkp (p_beh p) st (p_res p).
+Definition ret_with (r : option err) (p : rproc) : rproc := mkp (p_beh p) Sending r.
+
+(* the context's error after a cancellation with error [e]: the first one wins *)
+Definition cerr_after (s : rstate) (e : err) : err := if r_cancelled s then r_cerr s else e.
 
 Definition step_r (v : variant) (s : rstate) (e : revt) : option rstate :=
   match e with
   | RAddCheck b =>
-      Some (mkr (r_running s) (r_runners s) (r_pc s) (r_procs s) (r_cancelled s) (r_parent s)
-                (r_closech s)
+      Some (mkr (r_running s) (r_runners s) (r_pc s) (r_procs s) (r_cancelled s) (r_cerr s)
+                (r_parent s) (r_closech s)
                 (r_adds s ++ [if r_running s then ARejected else AChecked b]) (r_rejected s))
   | RAddAppend a =>
       match nth_error (r_adds s) a with
       | Some (AChecked b) =>
           if is_fixed v && r_running s
-          then Some (mkr (r_running s) (r_runners s) (r_pc s) (r_procs s) (r_cancelled s)
+          then Some (mkr (r_running s) (r_runners s) (r_pc s) (r_procs s) (r_cancelled s) (r_cerr s)
                          (r_parent s) (r_closech s) (upd a (fun _ => ARejected) (r_adds s))
                          (r_rejected s))
           else Some (mkr (r_running s) (r_runners s ++ [b]) (r_pc s) (r_procs s) (r_cancelled s)
-                         (r_parent s) (r_closech s) (upd a (fun _ => AAccepted b) (r_adds s))
-                         (r_rejected s))
+                         (r_cerr s) (r_parent s) (r_closech s)
+                         (upd a (fun _ => AAccepted b) (r_adds s)) (r_rejected s))
       | _ => None
       end
   | RRunCas =>
       if r_running s
-      then Some (mkr true (r_runners s) (r_pc s) (r_procs s) (r_cancelled s) (r_parent s)
+      then Some (mkr true (r_runners s) (r_pc s) (r_procs s) (r_cancelled s) (r_cerr s) (r_parent s)
                      (r_closech s) (r_adds s) (S (r_rejected s)))
-      else Some (mkr true (r_runners s) RStarted (r_procs s) (r_cancelled s) (r_parent s)
+      else Some (mkr true (r_runners s) RStarted (r_procs s) (r_cancelled s) (r_cerr s) (r_parent s)
                      (r_closech s) (r_adds s) (r_rejected s))
   | RSpawn =>
       match r_pc s with
       | RStarted =>
           Some (mkr (r_running s) (r_runners s) (RCollecting 0 [])
-                    (map (fun b => mkp b Running) (r_runners s))
-                    (r_cancelled s) (r_parent s) (r_closech s) (r_adds s) (r_rejected s))
+                    (map (fun b => mkp b Running None) (r_runners s))
+                    (r_cancelled s) (r_cerr s) (r_parent s) (r_closech s) (r_adds s) (r_rejected s))
       | _ => None
       end
   | RRunnerReturn i =>
@@ -160,8 +173,10 @@ Definition step_r (v : variant) (s : rstate) (e : revt) : option rstate :=
           match p_st p with
           | Running =>
               if may_return s (p_beh p)
-              then Some (mkr (r_running s) (r_runners s) (r_pc s) (upd i (set_st Sending) (r_procs s))
-                             (r_cancelled s) (r_parent s) (r_closech s) (r_adds s) (r_rejected s))
+              then Some (mkr (r_running s) (r_runners s) (r_pc s)
+                             (upd i (ret_with (result_of (r_cerr s) (p_beh p))) (r_procs s))
+                             (r_cancelled s) (r_cerr s) (r_parent s) (r_closech s) (r_adds s)
+                             (r_rejected s))
               else None
           | _ => None
           end
@@ -175,7 +190,8 @@ Definition step_r (v : variant) (s : rstate) (e : revt) : option rstate :=
               if (k <? target v s)%nat
               then Some (mkr (r_running s) (r_runners s) (RCollecting (S k) (errs ++ sent p))
                              (upd i (set_st Done) (r_procs s))
-                             true (r_parent s) (r_closech s) (r_adds s) (r_rejected s))
+                             true (cerr_after s canceled) (r_parent s) (r_closech s) (r_adds s)
+                             (r_rejected s))
               else None
           | _ => None
           end
@@ -186,25 +202,27 @@ Definition step_r (v : variant) (s : rstate) (e : revt) : option rstate :=
       | RCollecting k errs =>
           if (k <? target v s)%nat then None
           else Some (mkr (r_running s) (r_runners s) (RReturned errs) (r_procs s)
-                         true (r_parent s) (r_closech s) (r_adds s) (r_rejected s))
+                         true (cerr_after s canceled) (r_parent s) (r_closech s) (r_adds s)
+                         (r_rejected s))
       | _ => None
       end
-  | RCtxCancel =>
-      Some (mkr (r_running s) (r_runners s) (r_pc s) (r_procs s) true true (r_closech s)
-                (r_adds s) (r_rejected s))
+  | RCtxCancel e =>
+      Some (mkr (r_running s) (r_runners s) (r_pc s) (r_procs s) true (cerr_after s e) true
+                (r_closech s) (r_adds s) (r_rejected s))
   | RCloseCh =>
-      Some (mkr (r_running s) (r_runners s) (r_pc s) (r_procs s) (r_cancelled s) (r_parent s) true
-                (r_adds s) (r_rejected s))
+      Some (mkr (r_running s) (r_runners s) (r_pc s) (r_procs s) (r_cancelled s) (r_cerr s)
+                (r_parent s) true (r_adds s) (r_rejected s))
   end.
 
 (* NewRunnerManager(bs...) *)
-Definition new_rm (bs : list beh) : rstate := mkr false bs RIdle [] false false false [] 0.
+Definition new_rm (bs : list beh) : rstate := mkr false bs RIdle [] false canceled false false [] 0.
 
 Fixpoint run_r (v : variant) (s : rstate) (es : list revt) : option rstate :=
   match es with
   | [] => Some s
   | e :: es' => match step_r v s e with Some s' => run_r v s' es' | None => None end
   end.
+
 
 Definition all_done (ps : list rproc) : Prop := forall p, In p ps -> p_st p = Done.
 
@@ -239,6 +257,9 @@ Definition r_wedged (v : variant) (s : rstate) : Prop :=
                                  if i == len(closers) { close(closeFatalShutdown) }          [CCloseFatalCh]
                                  errs[i] = <-errCh }                                         [CCollectCloser j]
                               retErr = Join(errs); Unlock; close(stopped); return             [CRunReturn]
+     Add(runner)   84-91     if c.running.Load() { return ErrManagerAlreadyStarted }        [CAddCheck, which in the
+                              return c.mngr.Add(runner)       same step does the inner manager's own test]
+                              ... the inner Add's locked append                              [CAddAppend k]
      Close()       185-195    if closed.CAS(false,true) { close(closeCh) }                    [CCloseBegin]
                               if running.CAS(false,true) { close(stopped) }                   [CCloseStep c, 1st]
                               <-stopped; return retErr                                        [CCloseStep c, 2nd]
@@ -273,6 +294,10 @@ Inductive kst :=
 | KB                          (* running CAS done; blocked on <-stopped *)
 | KRet (errs : list err).     (* Close returned errs *)
 
+(* a RunnerCloserManager.Add call: refused by its own running test, or handed on to the inner
+   manager's Add (call number [a] there) *)
+Inductive cadd := CARefused | CAPassed (a : nat).
+
 Record cstate := mkcs {
   inner : rstate;
   c_running : bool;
@@ -289,7 +314,8 @@ Record cstate := mkcs {
   reterr : list err;            (* c.retErr *)
   addcl : list acst;
   closes : list kst;
-  run_rejected : nat            (* ghost: Run calls that returned ErrManagerAlreadyStarted *)
+  run_rejected : nat;           (* ghost: Run calls that returned ErrManagerAlreadyStarted *)
+  cadds : list cadd             (* RunnerCloserManager.Add calls so far *)
 }.
 
 Inductive cev :=
@@ -308,7 +334,9 @@ Inductive cev :=
 | CCloseBegin
 | CCloseStep (c : nat)
 | CAddCloserCheck (r : option err)
-| CAddCloserAppend (a : nat).
+| CAddCloserAppend (a : nat)
+| CAddCheck (b : beh)
+| CAddAppend (k : nat).
 
 Definition lock_held (s : cstate) : bool :=
   match c_pc s with CCollect _ _ _ => true | _ => false end.
@@ -316,23 +344,28 @@ Definition lock_held (s : cstate) : bool :=
 Definition w_inner (s : cstate) (x : rstate) : cstate :=
   mkcs x (c_running s) (c_closing s) (c_stopped s) (closers s) (c_pc s) (c_procs s) (fch_closed s)
        (timer_fired s) (fired_early s) (fatal_count s) (tie s) (reterr s) (addcl s) (closes s)
-       (run_rejected s).
+       (run_rejected s) (cadds s).
 Definition w_pc (s : cstate) (x : cpc) : cstate :=
   mkcs (inner s) (c_running s) (c_closing s) (c_stopped s) (closers s) x (c_procs s) (fch_closed s)
        (timer_fired s) (fired_early s) (fatal_count s) (tie s) (reterr s) (addcl s) (closes s)
-       (run_rejected s).
+       (run_rejected s) (cadds s).
 Definition w_procs (s : cstate) (x : list cproc) : cstate :=
   mkcs (inner s) (c_running s) (c_closing s) (c_stopped s) (closers s) (c_pc s) x (fch_closed s)
        (timer_fired s) (fired_early s) (fatal_count s) (tie s) (reterr s) (addcl s) (closes s)
-       (run_rejected s).
+       (run_rejected s) (cadds s).
 Definition w_addcl (s : cstate) (x : list acst) : cstate :=
   mkcs (inner s) (c_running s) (c_closing s) (c_stopped s) (closers s) (c_pc s) (c_procs s)
        (fch_closed s) (timer_fired s) (fired_early s) (fatal_count s) (tie s) (reterr s) x (closes s)
-       (run_rejected s).
+       (run_rejected s) (cadds s).
 Definition w_closes (s : cstate) (x : list kst) : cstate :=
   mkcs (inner s) (c_running s) (c_closing s) (c_stopped s) (closers s) (c_pc s) (c_procs s)
        (fch_closed s) (timer_fired s) (fired_early s) (fatal_count s) (tie s) (reterr s) (addcl s) x
-       (run_rejected s).
+       (run_rejected s) (cadds s).
+
+Definition w_cadds (s : cstate) (x : list cadd) : cstate :=
+  mkcs (inner s) (c_running s) (c_closing s) (c_stopped s) (closers s) (c_pc s) (c_procs s)
+       (fch_closed s) (timer_fired s) (fired_early s) (fatal_count s) (tie s) (reterr s) (addcl s)
+       (closes s) (run_rejected s) x.
 
 Definition cset_st (st : cst) (p : cproc) : cproc := mkc (c_cl p) st (c_starts p).
 Definition cstart (p : cproc) : cproc := mkc (c_cl p) CRunning (S (c_starts p)).
@@ -352,7 +385,7 @@ Fixpoint find_fatal_running (ps : list cproc) (i : nat) : option nat :=
    others are issued by [CSetup] / [CCloseBegin]) *)
 Definition inner_allowed (e : revt) : bool :=
   match e with
-  | RSpawn | RRunnerReturn _ | RCollect _ | RRunReturn | RCtxCancel => true
+  | RSpawn | RRunnerReturn _ | RCollect _ | RRunReturn | RCtxCancel _ => true
   | _ => false
   end.
 
@@ -362,10 +395,10 @@ Definition step_c (v : variant) (s : cstate) (e : cev) : option cstate :=
       if c_running s
       then Some (mkcs (inner s) true (c_closing s) (c_stopped s) (closers s) (c_pc s) (c_procs s)
                       (fch_closed s) (timer_fired s) (fired_early s) (fatal_count s) (tie s)
-                      (reterr s) (addcl s) (closes s) (S (run_rejected s)))
+                      (reterr s) (addcl s) (closes s) (S (run_rejected s)) (cadds s))
       else Some (mkcs (inner s) true (c_closing s) (c_stopped s) (closers s) CStarted (c_procs s)
                       (fch_closed s) (timer_fired s) (fired_early s) (fatal_count s) (tie s)
-                      (reterr s) (addcl s) (closes s) (run_rejected s))
+                      (reterr s) (addcl s) (closes s) (run_rejected s) (cadds s))
   | CSetup =>
       match c_pc s with
       | CStarted =>
@@ -401,7 +434,7 @@ Definition step_c (v : variant) (s : cstate) (e : cev) : option cstate :=
                      (CCollect (length (closers s)) 1 rerrs)
                      (map (fun c => mkc c CSpawned 0) (closers s))
                      (fch_closed s) (timer_fired s) (fired_early s) (fatal_count s) (tie s)
-                     (reterr s) (addcl s) (closes s) (run_rejected s))
+                     (reterr s) (addcl s) (closes s) (run_rejected s) (cadds s))
       | _, _ => None
       end
   | CCloserStart j =>
@@ -426,7 +459,7 @@ Definition step_c (v : variant) (s : cstate) (e : cev) : option cstate :=
           if timer_fired s then None
           else Some (mkcs (inner s) (c_running s) (c_closing s) (c_stopped s) (closers s) (c_pc s)
                           (c_procs s) (fch_closed s) true (negb (fch_closed s)) (fatal_count s)
-                          (tie s) (reterr s) (addcl s) (closes s) (run_rejected s))
+                          (tie s) (reterr s) (addcl s) (closes s) (run_rejected s) (cadds s))
       | None => None
       end
   | CFatal =>
@@ -436,7 +469,7 @@ Definition step_c (v : variant) (s : cstate) (e : cev) : option cstate :=
           then Some (mkcs (inner s) (c_running s) (c_closing s) (c_stopped s) (closers s) (c_pc s)
                           (upd j (cset_st CRet) (c_procs s)) (fch_closed s) (timer_fired s)
                           (fired_early s) (S (fatal_count s)) (tie s || fch_closed s)
-                          (reterr s) (addcl s) (closes s) (run_rejected s))
+                          (reterr s) (addcl s) (closes s) (run_rejected s) (cadds s))
           else None
       | None => None
       end
@@ -447,7 +480,7 @@ Definition step_c (v : variant) (s : cstate) (e : cev) : option cstate :=
           then Some (mkcs (inner s) (c_running s) (c_closing s) (c_stopped s) (closers s) (c_pc s)
                           (upd j (cset_st CRet) (c_procs s)) (fch_closed s) (timer_fired s)
                           (fired_early s) (fatal_count s) (tie s || timer_fired s)
-                          (reterr s) (addcl s) (closes s) (run_rejected s))
+                          (reterr s) (addcl s) (closes s) (run_rejected s) (cadds s))
           else None
       | None => None
       end
@@ -457,7 +490,7 @@ Definition step_c (v : variant) (s : cstate) (e : cev) : option cstate :=
           if (i =? n)%nat && negb (fch_closed s)
           then Some (mkcs (inner s) (c_running s) (c_closing s) (c_stopped s) (closers s) (c_pc s)
                           (c_procs s) true (timer_fired s) (fired_early s) (fatal_count s) (tie s)
-                          (reterr s) (addcl s) (closes s) (run_rejected s))
+                          (reterr s) (addcl s) (closes s) (run_rejected s) (cadds s))
           else None
       | _ => None
       end
@@ -480,7 +513,7 @@ Definition step_c (v : variant) (s : cstate) (e : cev) : option cstate :=
           if (i <=? n)%nat then None
           else Some (mkcs (inner s) (c_running s) (c_closing s) true (closers s) (CDone errs)
                           (c_procs s) (fch_closed s) (timer_fired s) (fired_early s) (fatal_count s)
-                          (tie s) errs (addcl s) (closes s) (run_rejected s))
+                          (tie s) errs (addcl s) (closes s) (run_rejected s) (cadds s))
       | _ => None
       end
   | CCloseBegin =>
@@ -494,7 +527,7 @@ Definition step_c (v : variant) (s : cstate) (e : cev) : option cstate :=
           Some (mkcs (inner s) true (c_closing s) (if c_running s then c_stopped s else true)
                      (closers s) (c_pc s) (c_procs s) (fch_closed s) (timer_fired s) (fired_early s)
                      (fatal_count s) (tie s) (reterr s) (addcl s)
-                     (upd c (fun _ => KB) (closes s)) (run_rejected s))
+                     (upd c (fun _ => KB) (closes s)) (run_rejected s) (cadds s))
       | Some KB =>
           if c_stopped s
           then Some (w_closes s (upd c (fun _ => KRet (reterr s)) (closes s)))
@@ -513,7 +546,24 @@ Definition step_c (v : variant) (s : cstate) (e : cev) : option cstate :=
                           (closers s ++ [User r]) (c_pc s) (c_procs s) (fch_closed s)
                           (timer_fired s) (fired_early s) (fatal_count s) (tie s) (reterr s)
                           (upd a (fun _ => ACAccepted (length (closers s))) (addcl s))
-                          (closes s) (run_rejected s))
+                          (closes s) (run_rejected s) (cadds s))
+      | _ => None
+      end
+  | CAddCheck b =>
+      if c_running s
+      then Some (w_cadds s (cadds s ++ [CARefused]))
+      else match step_r v (inner s) (RAddCheck b) with
+           | Some x => Some (w_cadds (w_inner s x) (cadds s ++ [CAPassed (length (r_adds (inner s)))]))
+           | None => None
+           end
+  | CAddAppend k =>
+      match nth_error (cadds s) k with
+      | Some (CAPassed a) =>
+          if lock_held s then None
+          else match step_r v (inner s) (RAddAppend a) with
+               | Some x => Some (w_inner s x)
+               | None => None
+               end
       | _ => None
       end
   end.
@@ -522,7 +572,7 @@ Definition step_c (v : variant) (s : cstate) (e : cev) : option cstate :=
 Definition new_cm (grace : bool) (bs : list beh) (cls : list (option err)) : cstate :=
   mkcs (new_rm bs) false false false
        ((if grace then [Fatal] else []) ++ map User cls)
-       CIdle [] false false false 0 false [] [] [] 0.
+       CIdle [] false false false 0 false [] [] [] 0 [].
 
 Fixpoint run_c (v : variant) (s : cstate) (es : list cev) : option cstate :=
   match es with
